@@ -274,6 +274,10 @@ struct Runner {
                 }
             }
             else if (op == "wb") guarded_block("wb", [&] { ex->write_block(); });
+            else if (op == "addbp") guarded("addbp", [&] {       // one more parameter set: part of the preamble of the outputs opened from now on
+                BlockParameters bp; bp.storage_parameters.ticks_per_second = 1000; bp.storage_parameters.max_block_items = sc.value("max", 4);
+                ex->add_block_parameters(bp);
+            });
             else if (op == "rot") rotate(st.value("export", false), "rot", st.value("to", 0));
             else if (op == "rotbad") {
                 // a rotation that cannot succeed: the new name lies in a directory that does not exist (a descriptor
@@ -429,6 +433,7 @@ static json describe_outputs(const std::map<std::string, std::string>& snap, con
                 json ports = json::array();
                 for (auto& b : rd["blocks"]) for (auto& q : b["qrs"]) ports.push_back(vh::u64_from_nat(q["client_port"]));
                 o["fin"] = rd["fin"]; o["ports"] = ports;
+                o["nbps"] = rd.contains("preamble") && rd["preamble"].contains("bps") ? rd["preamble"]["bps"].size() : 0;
             } else { o["fin"] = plain.empty() ? "empty" : "nostream"; o["ports"] = json::array(); }
         }
         outs.push_back(o);
